@@ -549,6 +549,16 @@ func (ec *evalCtx) typeExpr(e ast.Expr) (types.Type, error) {
 			return nil, err
 		}
 		return types.NewPointer(t), nil
+	case *ast.MapType:
+		k, err := ec.typeExpr(x.Key)
+		if err != nil {
+			return nil, err
+		}
+		v, err := ec.typeExpr(x.Value)
+		if err != nil {
+			return nil, err
+		}
+		return types.NewMap(k, v), nil
 	case *ast.Ident:
 		if obj := ec.pkg.Scope().Lookup(x.Name); obj != nil {
 			if tn, ok := obj.(*types.TypeName); ok {
